@@ -21,7 +21,8 @@ EVIDENCE = dict(
          "and at return/raise together with the closed state; Trace_RVLoad validates the trace. "
          "Also: a path naming a pipe (non-seekable stream), warnings turned into errors, sources that really carry out-of-range "
          "values, nested loads started through the public load_chunk entry points. "
-         "non-trivial = the load raises or involves a nested load.",
+         "non-trivial = the load raises or involves a nested load."
+         " The setting is also held as 1, 0, 2, 'strict' and '' (truth value restored).",
     explanation="fault_sequences: one fault per run at each enumerated position")
 
 
